@@ -43,6 +43,9 @@ CompUses(c) ==
   LET one(j) == IF ~CompAllowed(c, j) \/ c.modes[j] = "off" THEN <<>>
                 ELSE (IF c.modes[j] \in {"text", "both"} THEN << <<Comps[j], "cf", PalAt(c, j - 1)>> >> ELSE <<>>)
                   \o (IF c.modes[j] \in {"bg", "both"} THEN << <<Comps[j], "cb", PalAt(c, j)>> >> ELSE <<>>)
+                  \* a border colour on a table-rendered component (column header, footnote, source)
+                  \o (IF c.modes[j] = "border" /\ Comps[j] \in {"header", "footnote", "source"} /\ c.path # "figure"
+                      THEN << <<Comps[j], "brdr_top", PalAt(c, j + 1)>> >> ELSE <<>>)
   IN one(1) \o one(2) \o one(3) \o one(4) \o one(5) \o one(6) \o one(7)
 BodyColour(c, s, r, col) == CASE c.shape = "scalar" -> PalAt(c, s)
                               [] c.shape = "col" -> PalAt(c, col + s)
